@@ -554,7 +554,11 @@ def inject_violation(items, rng):
     choice = rng.choice(["no-start", "two-starts", "no-terminal", "two-terminals", "undef-start", "lower-nt", "lower-t",
                          "lower-tenum", "upper-field", "clash-nt-nt", "clash-t-t", "clash-nt-t", "clash-tenum-nt", "clash-tenum-t",
                          "variant-name-clash", "variant-seq-clash", "undef-nt", "undef-t", "t-as-nt", "nt-as-t", "lower-variant",
-                         "start-is-terminal", "tenum-as-nt"])
+                         "start-is-terminal", "tenum-as-nt",
+                         # violations inside a declaration nothing refers to: no later stage (conflicts) can mask the verdict
+                         "unused-unit-seq-clash", "unused-seq-clash", "unused-variant-name-clash", "unused-undef",
+                         "unused-lower"])
+    tnames = [v["name"] for v in term["variants"]]
 
     def all_fields():
         for d in nts:
@@ -639,6 +643,29 @@ def inject_violation(items, rng):
         if not es:
             return None
         rng.choice(rng.choice(es)["variants"])["name"] = "lower"
+    elif choice.startswith("unused-"):
+        def fs_of(syms, named):
+            if not syms:
+                return {"kind": "empty"}
+            if named:
+                return {"kind": "named", "fields": [{"name": f"f{i}", "sym": s} for i, s in enumerate(syms)]}
+            return {"kind": "tuple", "fields": [{"used": True, "sym": s} for s in syms]}
+        some = [sym_t(rng.choice(tnames))] if tnames and rng.random() < 0.7 else [sym_n(nts[0]["name"])]
+        name = "Zzunused"
+        if choice == "unused-unit-seq-clash":
+            d = {"kind": "enum", "attrs": [], "name": name, "variants": [{"name": "Alpha", "fieldset": {"kind": "empty"}}, {"name": "Beta", "fieldset": {"kind": "empty"}}]}
+        elif choice == "unused-seq-clash":
+            d = {"kind": "enum", "attrs": [], "name": name, "variants": [{"name": "Alpha", "fieldset": fs_of(some, False)}, {"name": "Beta", "fieldset": fs_of(some, rng.random() < 0.5)}]}
+        elif choice == "unused-variant-name-clash":
+            d = {"kind": "enum", "attrs": [], "name": name, "variants": [{"name": "Alpha", "fieldset": fs_of(some, False)}, {"name": "Alpha", "fieldset": {"kind": "empty"}}]}
+        elif choice == "unused-undef":
+            d = {"kind": "struct", "attrs": [], "name": name, "fieldset": fs_of([rng.choice([sym_n("Missing"), sym_t("Missing")] + ([sym_n(tnames[0])] if tnames else []))], rng.random() < 0.5)}
+        else:
+            if rng.random() < 0.5:
+                d = {"kind": "enum", "attrs": [], "name": name, "variants": [{"name": "alpha", "fieldset": fs_of(some, False)}]}
+            else:
+                d = {"kind": "struct", "attrs": [], "name": name, "fieldset": {"kind": "named", "fields": [{"name": "Big", "sym": some[0]}]}}
+        it.insert(rng.randint(0, len(it)), d)
     else:
         return None
     return it, choice
